@@ -51,7 +51,16 @@ void ReparametrizationFunctionWrapper::init_(bool verbose)
             // Case 2: ]a,b[
             // We have to correct the bound in order to prevent numerical issues.
             // It can happens that the original bound is matched because of rounding errors.
-            IntervalTransformedParameter* pp = new IntervalTransformedParameter(name, value, interval->getLowerBound() + NumConstants::TINY(), interval->getUpperBound() - NumConstants::TINY());
+            double lowerBound = interval->getLowerBound() + NumConstants::TINY();
+            double upperBound = interval->getUpperBound() - NumConstants::TINY();
+            // The constraint accepts values up to the original bounds: a value closer than TINY
+            // to a corrected bound (or beyond it) is moved inside the corrected interval.
+            double correctedValue = value;
+            if (value - lowerBound < NumConstants::TINY())
+              correctedValue = lowerBound + NumConstants::TINY();
+            if (upperBound - value < NumConstants::TINY())
+              correctedValue = upperBound - NumConstants::TINY();
+            IntervalTransformedParameter* pp = new IntervalTransformedParameter(name, correctedValue, lowerBound, upperBound);
             addParameter_(pp);
             if (verbose)
               ApplicationTools::displayMessage("Parameter " + name + " was tanh transformed: " + TextTools::toString(value) + "->" + TextTools::toString(pp->getValue()));
@@ -63,7 +72,11 @@ void ReparametrizationFunctionWrapper::init_(bool verbose)
             double correctedValue = value;
             if (abs(value - interval->getLowerBound()) < NumConstants::TINY())
               correctedValue = interval->getLowerBound() + NumConstants::TINY();
-            IntervalTransformedParameter* pp = new IntervalTransformedParameter(name, correctedValue, interval->getLowerBound(), interval->getUpperBound() - NumConstants::TINY());
+            // The same if it is closer than TINY to the corrected upper bound (or beyond it).
+            double upperBound = interval->getUpperBound() - NumConstants::TINY();
+            if (upperBound - value < NumConstants::TINY())
+              correctedValue = upperBound - NumConstants::TINY();
+            IntervalTransformedParameter* pp = new IntervalTransformedParameter(name, correctedValue, interval->getLowerBound(), upperBound);
             addParameter_(pp);
             if (verbose)
               ApplicationTools::displayMessage("Parameter " + name + " was tanh transformed: " + TextTools::toString(value) + "->" + TextTools::toString(pp->getValue()));
@@ -71,11 +84,15 @@ void ReparametrizationFunctionWrapper::init_(bool verbose)
           else if (interval->strictLowerBound() && !interval->strictUpperBound())
           {
             // Case 4: ]a,b]
-            // This solve an issue if the original value is at the bound.
+            // This solve an issue if the original value is at the bound,
+            // or closer than TINY to the corrected lower bound (or beyond it).
+            double lowerBound = interval->getLowerBound() + NumConstants::TINY();
             double correctedValue = value;
+            if (value - lowerBound < NumConstants::TINY())
+              correctedValue = lowerBound + NumConstants::TINY();
             if (abs(value - interval->getUpperBound()) < NumConstants::TINY())
               correctedValue = interval->getUpperBound() - NumConstants::TINY();
-            IntervalTransformedParameter* pp = new IntervalTransformedParameter(name, correctedValue, interval->getLowerBound() + NumConstants::TINY(), interval->getUpperBound());
+            IntervalTransformedParameter* pp = new IntervalTransformedParameter(name, correctedValue, lowerBound, interval->getUpperBound());
             addParameter_(pp);
             if (verbose)
               ApplicationTools::displayMessage("Parameter " + name + " was tanh transformed: " + TextTools::toString(value) + "->" + TextTools::toString(pp->getValue()));
@@ -86,7 +103,13 @@ void ReparametrizationFunctionWrapper::init_(bool verbose)
           if (interval->strictLowerBound() && !interval->finiteUpperBound())
           {
             // Case 5: ]a, +inf[
-            RTransformedParameter* pp = new RTransformedParameter(name, value, interval->getLowerBound() + NumConstants::TINY(), true);
+            // The constraint accepts values up to the original bound: a value closer than TINY
+            // to the corrected bound (or beyond it) is moved inside.
+            double lowerBound = interval->getLowerBound() + NumConstants::TINY();
+            double correctedValue = value;
+            if (value - lowerBound < NumConstants::TINY())
+              correctedValue = lowerBound + NumConstants::TINY();
+            RTransformedParameter* pp = new RTransformedParameter(name, correctedValue, lowerBound, true);
             addParameter_(pp);
             if (verbose)
               ApplicationTools::displayMessage("Parameter " + name + " was log transformed: " + TextTools::toString(value) + "->" + TextTools::toString(pp->getValue()));
@@ -106,7 +129,13 @@ void ReparametrizationFunctionWrapper::init_(bool verbose)
           else if (!interval->finiteLowerBound() && interval->strictUpperBound())
           {
             // Case 7: ]-inf, a[
-            RTransformedParameter* pp = new RTransformedParameter(name, value, interval->getUpperBound() - NumConstants::TINY(), false);
+            // The constraint accepts values up to the original bound: a value closer than TINY
+            // to the corrected bound (or beyond it) is moved inside.
+            double upperBound = interval->getUpperBound() - NumConstants::TINY();
+            double correctedValue = value;
+            if (upperBound - value < NumConstants::TINY())
+              correctedValue = upperBound - NumConstants::TINY();
+            RTransformedParameter* pp = new RTransformedParameter(name, correctedValue, upperBound, false);
             addParameter_(pp);
             if (verbose)
               ApplicationTools::displayMessage("Parameter " + name + " was log transformed: " + TextTools::toString(value) + "->" + TextTools::toString(pp->getValue()));
